@@ -20,7 +20,7 @@
 From Coq Require Import ZArith List Bool.
 From Verif.Model Require Import Result.
 Import ListNotations.
-Open Scope Z_scope.
+Local Open Scope Z_scope.
 
 (* ---------- character classes (pyparsing: nums, alphas, alphanums are ASCII) ---------- *)
 Definition is_digit (c : Z) : bool := (48 <=? c) && (c <=? 57).
